@@ -54,6 +54,9 @@ def instances(build, tier, seed):
     L.append(Inst('safe.subobj', 'h_subobj.c', {}, units=['type'], unwind=4, family='safe.subobj', safety=True, timeout=300,
                   native_units=['util', 'token', 'expr', 'eval', 'decl', 'map', 'scope', 'targ', 'attr', 'stmt', 'utf', 'scan', 'pp', 'qbe', 'tree'],
                   bound={'designator stack depth': 'symbolic 0..31'}))
+    # the preprocessor on a slice of the C12 macro sets, with real deallocation (use after free) and all pointer checks
+    import pplib
+    L += [i for i in pplib.instances('quick', fam='safe.expand', safety=True) if any(w in i.name for w in ('keyword', 'function', 'variadic.', 'undef-history', 'painted', 'stringify.', 'reject.too-many', 'reject.eof'))]
     # parser-level robustness: unusual but syntactically possible inputs that must end in output or a diagnostic, never in a failed
     # internal assertion or an invalid access (every source assert() is a proof obligation under CBMC)
     import parselib
